@@ -74,7 +74,7 @@ class ErrAdapter(Adapter):
         n = int(rng.integers(1, 6))
         self.yb = rng.uniform(0.5, 2.0, n)
         self.ob = rng.uniform(0.5, 2.0, n)
-        self.S = rng.normal(size=(n, 2))
+        self.S = rng.normal(size=(n, int(rng.integers(0, 6))))     # width != number of error parameters too
         self.kind = 'ReducedErrorModel/' + base.__name__
 
     def names(self):
@@ -177,8 +177,8 @@ def pop_models(chi, rng):
     if k == 3:
         return chi.TruncatedGaussianModel(n_dim=nd)
     if k == 4:
-        return chi.ComposedPopulationModel([chi.GaussianModel(n_dim=1), chi.PooledModel(n_dim=1),
-                                            chi.LogNormalModel(n_dim=nd)])
+        return chi.ComposedPopulationModel([chi.GaussianModel(n_dim=1), chi.PooledModel(n_dim=nd),
+                                            chi.LogNormalModel(n_dim=1), chi.PooledModel(n_dim=1)])
     return chi.ComposedPopulationModel([chi.LogNormalModel(n_dim=1, centered=False),
                                         chi.GaussianModel(n_dim=nd)])
 
@@ -203,6 +203,29 @@ class PopAdapter(Adapter):
 
     def reported(self):
         return self.obj.get_parameter_names(), self.obj.n_parameters(), self.obj.n_fixed_parameters()
+
+    def rename(self, rng):
+        """rename the dimensions on wrapper and reference (every parameter name changes); returns the
+        old -> new name map (position by position)"""
+        old = self.ref.get_parameter_names()
+        tag = 'r%d' % int(rng.integers(1000))
+        dims = ['%s%d' % (tag, d) for d in range(self.ref.n_dim())]
+        self.ref.set_dim_names(dims)
+        self.obj.set_dim_names(dims)
+        new = self.ref.get_parameter_names()
+        return dict(zip(old, new)) if len(set(old)) == len(old) else None
+
+    def special_dims_spec(self, net):
+        """get_special_dims() of the reduced model = the unreduced model's blocks with the population
+        parameter range re-indexed into the FREE parameter vector"""
+        names = self.ref.get_parameter_names()
+        fixed = np.array([n in net for n in names], bool)
+        want = []
+        for sd in self.ref.get_special_dims()[0]:
+            a, b = int(sd[2]), int(sd[3])
+            want.append([int(sd[0]), int(sd[1]), a - int(fixed[:a].sum()), b - int(fixed[:b].sum()), bool(sd[4])])
+        got = [[int(x[0]), int(x[1]), int(x[2]), int(x[3]), bool(x[4])] for x in self.obj.get_special_dims()[0]]
+        return got, want
 
     def evals(self, free):
         o = self.obj
@@ -417,6 +440,13 @@ def compare(ctx, ad, ops_so_far, rng, inp):
     ctx.spec('C08.count/' + ad.kind.split('/')[0], rep_n == len(free_names), inp, {'reported': rep_n})
     if rep_fixed is not None:
         ctx.spec('C08.n_fixed/' + ad.kind.split('/')[0], rep_fixed == len(names) - len(free_names), inp)
+    if hasattr(ad, 'special_dims_spec'):
+        try:
+            got_sd, want_sd = ad.special_dims_spec(net)
+            ctx.spec('C08.special_dims_reindexed/ReducedPopulationModel', got_sd == want_sd, inp,
+                     {'reported': got_sd, 'expected': want_sd})
+        except Exception as e:  # noqa
+            ctx.spec('C08.special_dims_reindexed/ReducedPopulationModel', False, inp, {'raised': repr(e)[:200]})
     free = np.array([ad.draw(rng, n) for n in free_names])
     it = iter(free)
     full = np.array([net[n] if n in net else next(it) for n in names], float)
@@ -474,6 +504,18 @@ def run_history(ctx, chi, A, rng, length, ops=None):
              if ('refix' in shape or 'release' in shape) else False, sample=inp)
     compare(ctx, ad, [], rng, dict(inp, step=0))
     for k in range(len(ops)):
+        if hasattr(ad, 'rename') and rng.random() < 0.25:
+            # the dimensions are renamed between two fix calls: all names change, positions stay; the
+            # history so far and the calls to come are expressed in the new names
+            try:
+                m = ad.rename(rng)
+            except Exception as e:  # noqa
+                ctx.spec('C08.rename_raises/ReducedPopulationModel', False, dict(inp, step=k), {'raised': repr(e)[:200]})
+                return
+            if m is not None:
+                ops = [[(m.get(n, n), v) for n, v in d] for d in ops]
+                names = [m.get(n, n) for n in names]
+                inp = dict(inp, names=names, history=[[[n, v] for n, v in d] for d in ops], renamed_before_step=k + 1)
         try:
             ad.fix(dict(ops[k]))
         except Exception as e:  # noqa
